@@ -111,7 +111,7 @@ class Gen:
                 continue
             yield from self.leaves(self.field_enc(f), [f["name"]], [f["name"]])
 
-    def emit_level(self, mname, lv, path, nav, depth, M):
+    def emit_level(self, mname, lv, path, nav, depth, M, tagpath=None):
         """nav: C++ expression (using m and ip) evaluating to this level's view"""
         L = self.out
         key = "%s:%s" % (mname, "/".join(path))
@@ -135,17 +135,20 @@ class Gen:
             ln = 1 if ln is None else ln
             scalar = (e["kind"] == "type" and ln == 1) or e["kind"] in ("enum", "set")
             L.append('VH_REG_CMEMBER_%s("%s:%s", %s, %s, %s);' % ("scalar" if scalar else "view", key, f["name"], M, fn, f["name"]))
+            L.append('VH_REG_TAGGED_%s("%s:%s", %s, %s, %s, %s::%s);' % ("scalar" if scalar else "view", key, f["name"], M, fn, f["name"], tagpath, f["name"]))
         for g in lv.get("groups", []):
             L.append('VH_REG_CMEMBER_view("%s:%s", %s, %s, %s);' % (key, g["name"], M, fn, g["name"]))
+            L.append('VH_REG_TAGGED_view("%s:%s", %s, %s, %s, %s::%s);' % (key, g["name"], M, fn, g["name"], tagpath, g["name"]))
         for d in lv.get("data", []):
             L.append('VH_REG_CMEMBER_view("%s:%s", %s, %s, %s);' % (key, d["name"], M, fn, d["name"]))
+            L.append('VH_REG_TAGGED_view("%s:%s", %s, %s, %s, %s::%s);' % (key, d["name"], M, fn, d["name"], tagpath, d["name"]))
         for g in lv.get("groups", []):
             L.append('VH_REG_GROUP("%s:%s", %s, %s, %s);' % (key, g["name"], M, fn, g["name"]))
         for d in lv.get("data", []):
             L.append('VH_REG_DATA("%s:%s", %s, %s, %s);' % (key, d["name"], M, fn, d["name"]))
         for g in lv.get("groups", []):
             gnav = "vh::nth(%s.%s(), ip[%d])" % (nav, g["name"], depth)
-            self.emit_level(mname, g, path + [g["name"]], gnav, depth + 1, M)
+            self.emit_level(mname, g, path + [g["name"]], gnav, depth + 1, M, "%s::%s" % (tagpath, g["name"]))
 
     def emit_tagkeys(self, lv, path, tagpath):
         """one specialisation per level-member tag: tag type -> key relative to the message"""
@@ -171,7 +174,7 @@ class Gen:
             L.append("// ---- message %s" % m["name"])
             L.append('VH_REG_MESSAGE("%s", %s);' % (m["name"], M))
             L.append('VH_REG_VISIT("%s", %s);' % (m["name"], M))
-            self.emit_level(m["name"], m, [], "m", 0, M)
+            self.emit_level(m["name"], m, [], "m", 0, M, "::%s::schema::messages::%s" % (self.ns, m["name"]))
         L.append("} // namespace")
         return "\n".join(L) + "\n"
 
